@@ -45,6 +45,15 @@ def case_mass(inp):
     ok = abs(F(repr(float(got))) - ref) <= tol
     if not ok:
         return False, float(ref), got, None
+    if inp['pep'].get('labile') and prec is None and not adducts:
+        # "labile for the precursor only": a fragment-type ion does not carry the labile modifications, the precursor does
+        bare = build(dict(inp['pep'], labile=[])).text()
+        lab = sum((md.mass(mono) for md in pep.labile), F(0))
+        for t_ in ('b', 'y', 'c', 'z', 'p'):
+            d_ = pt.mass(text, ion_type=t_, charge=1, monoisotopic=mono) - pt.mass(bare, ion_type=t_, charge=1, monoisotopic=mono)
+            want = float(lab) if t_ == 'p' else 0.0
+            if abs(d_ - want) > float(tol):
+                return False, ('labile modifications count for the precursor only: mass difference with / without them, ion type ' + t_, want), d_, None
     q = adduct_mass(adducts, mono)[1] if adducts else charge
     if q and q > 0 and not adducts:
         gz = pt.mz(text, charge=charge, monoisotopic=mono, isotope=isotope, loss=loss, precision=prec)
